@@ -152,6 +152,11 @@ inductive Op where
   | mkcall
   | conf (k : Kind) (n e b : Nat) (sigOk : Bool)
   | observe (n : Nat)
+  | event (bs bcs cs : List Nat) (obs : Option (Option Nat))
+      -- an external-chain event reached its quorum and was executed (claim handlers + `cleanupTimedOutBatches` /
+      -- `cleanupTimeOutBridgeCall`, the C01 / C05 alphabets): seen from the slashing state it removes batches (executed,
+      -- cancelled, timed out), batch confirms (of the executed batch), bridge calls with their confirms (result / timeout)
+      -- and may move the last observed oracle set; WHICH ones is the environment's choice
   | block (dt : Nat)
   | tick (dt : Nat)      -- the pending block's time moves on by dt: the following messages are txs of a block with that time
   | valslash (v num den : Nat)
@@ -412,6 +417,16 @@ def observe (s : State) (n : Nat) : State × Res :=
   if n == 0 then ({ s with lastObserved := none }, .ok) else
   if s.osets.any (·.nonce == n) then ({ s with lastObserved := some n }, .ok) else (s, .err "no-object")
 
+/-- effect of an executed external event on the slashing-relevant state (`OutgoingTxBatchExecuted`: `DeleteBatch` of the
+executed batch and of every earlier batch of the token, `DeleteBatchConfirm` of the executed one only; `CancelOutgoingTxBatch`
+on timeout: `DeleteBatch` only; `DeleteOutgoingBridgeCallRecord`: the call and its confirms) -/
+def extEvent (s : State) (bs bcs cs : List Nat) (obs : Option (Option Nat)) : State × Res :=
+  ({ s with batches := s.batches.filter (fun b => !bs.contains b.nonce),
+            batchConf := s.batchConf.filter (fun c => !bcs.contains c.nonce),
+            calls := s.calls.filter (fun c => !cs.contains c.nonce),
+            callConf := s.callConf.filter (fun c => !cs.contains c.nonce),
+            lastObserved := match obs with | none => s.lastObserved | some o => o }, .ok)
+
 /-- validator slashed by fraction `num/den` at the current height (floor arithmetic; exactness is not claimed) -/
 def valSlash (s : State) (v num den : Nat) : State × Res :=
   if den == 0 || num > den then (s, .err "bad") else
@@ -665,6 +680,7 @@ def step (s : State) : Op → State × Res
   | .mkcall => mkCall s
   | .conf k n e b sg => confirm s k n e b sg
   | .observe n => observe s n
+  | .event bs bcs cs obs => extEvent s bs bcs cs obs
   | .block dt => block s dt
   | .tick dt => ({ s with time := s.time + dt }, .ok)
   | .valslash v num den => valSlash s v num den
